@@ -286,6 +286,8 @@ def torus(
     Returns:
         SurfaceMesh: a torus
     """
+    if major_segments<3 or minor_segments<3:
+        raise Exception("major_segments and minor_segments should be >= 3 for a valid torus. Aborting")
     out = RawMeshData()
     # generate vertices
     for i in range(major_segments):
